@@ -17,7 +17,7 @@ cp -r "$repo/headers" "$repo/internal" "$scratch/repo/" || exit 3
 cp "$sim"/simrt_src/*.go "$sim"/simrt_src/*.s "$scratch/repo/simrt/" || exit 3
 ( cd "$sim" && $GO build -o "$scratch/simrewrite" ./cmd/simrewrite ) || exit 3
 "$scratch/simrewrite" github.com/tokenized/bitcoin_reader/simrt \
-  "$scratch/repo/block_downloader.go" "$scratch/repo/block_manager.go" "$scratch/repo/tx_manager.go" "$scratch/repo/peers.go" "$scratch/repo/node_manager.go" > "$scratch/rewrite.log" 2>&1 || { cat "$scratch/rewrite.log"; exit 4; }
+  "$scratch/repo/block_downloader.go" "$scratch/repo/block_manager.go" "$scratch/repo/tx_manager.go" "$scratch/repo/peers.go" "$scratch/repo/node_manager.go" "$scratch/repo/bitcoin_node.go" "$scratch/repo/handlers.go" "$scratch/repo/messages.go" "$scratch/repo/verif_hooks.go" > "$scratch/rewrite.log" 2>&1 || { cat "$scratch/rewrite.log"; exit 4; }
 sed "s#=> /repo#=> $scratch/repo#" "$sim/go.mod" > "$scratch/go.mod"
 cp "$sim/go.sum" "$scratch/go.sum"
 ( cd "$sim" && $GO test -c -vet=off -modfile="$scratch/go.mod" -tags 'verif simf' -o "$out" ./cmd/simcheck ) > "$scratch/build.log" 2>&1 || { cat "$scratch/build.log"; exit 5; }
